@@ -110,6 +110,13 @@ def _lookup_model(it):
     'C11': 'GCounter/PNCounter keep the largest running total per actor through this function',
     'C03': 'GCounter/PNCounter apply is this function: an op delivered after a merged state that already holds a larger total for the '
            'actor must not lower it, and a new total must be stored as the merge of the writer\'s state would',
+    'C04': '[primitive] Orswot apply absorbs the op dot into the replica clock and stamps the member clock through it (ABSORB, STAMP)',
+    'C05': '[primitive] same for Map (ABSORB, STAMP)',
+    'C06': '[primitive] MVReg read joins the value clocks dot by dot through it (MV-READ, VC-MERGE)',
+    'C07': '[primitive] derive_add_ctx applies the fresh dot to the add clock through it (CTX-DERIVE); the clock must then cover it',
+    'C08': '[primitive] the clock growth that triggers re-examination of pending removes is this function (ABSORB, DEF-REEXAM)',
+    'C12': '[primitive] List::apply absorbs the op dot through it (ABSORB list instances)',
+    'C02': '[primitive] VClock::merge applies every dot of other through it (VC-MERGE)',
 }, floor=1)
 def vc_apply(ctx):
     """VClock::apply stores dot.counter for dot.actor: must under get(actor) < counter, never under get(actor) > counter
@@ -252,6 +259,13 @@ def uncovered_scan_errors(facts, cb, mapping):
     'C10': 'reset_remove(c) keeps exactly the entries strictly newer than c',
     'C18': 'per-actor dot subtraction is the building block of every reset_remove',
     'C04': 'remove = subtraction of the remove context from the witness clock',
+    'C05': '[primitive] Map key remove and the one-sided merge branches subtract through it (RM, MERGE-DROP, MAP-RESET-PAIR)',
+    'C02': '[primitive] the kept witness of a one-sided entry is reduced through it (MERGE-DROP/subtract)',
+    'C03': '[primitive] same subtraction on the op side (RM) and on the merge side (MERGE-DROP)',
+    'C07': '[primitive] the rm_clock handed out by a read is what these subtractions leave (MERGE-DROP serves C07)',
+    'C08': '[primitive] a replayed pending remove subtracts through it (RM)',
+    'C09': '[primitive] a covered add stays absent because its dots were subtracted through it (RM, MERGE-DROP)',
+    'C20': '[primitive] an entry is pruned when this subtraction leaves nothing (RM/prune, RR-PRUNE)',
 }, floor=1)
 def vc_reset(ctx):
     """VClock::reset_remove(other): for every dot of other, self's entry is removed exactly when other.counter >= self.get(actor)."""
@@ -324,6 +338,11 @@ def vc_reset(ctx):
     'C10': 'intersection keeps exactly the equal entries',
     'C04': 'the common-dots formula of merge relies on it (an add witnessed on both sides survives)',
     'C05': 'same for Map',
+    'C02': '[primitive] MERGE-COMMON holds the both-present witness to a formula built from it',
+    'C03': '[primitive] same (MERGE-COMMON serves C03)',
+    'C07': '[primitive] same (MERGE-COMMON serves C07)',
+    'C09': '[primitive] same (MERGE-COMMON serves C09)',
+    'C20': '[primitive] same (MERGE-COMMON serves C20)',
 }, floor=1)
 def vc_intersect(ctx):
     """VClock::intersection(left, right) inserts (actor, counter) exactly when right.get(actor) == left counter, for every entry of left."""
@@ -443,6 +462,11 @@ def vc_intersect(ctx):
     'C10': 'forget: clone_without(base) keeps exactly the entries strictly newer than base, like reset_remove',
     'C04': 'the common-dots formula of merge uses it for "their dots we have not seen" / "our dots they have not seen"',
     'C05': 'same for Map entry clocks',
+    'C02': '[primitive] MERGE-COMMON holds the both-present witness to a formula built from it',
+    'C03': '[primitive] same (MERGE-COMMON serves C03)',
+    'C07': '[primitive] same (MERGE-COMMON serves C07)',
+    'C09': '[primitive] same (MERGE-COMMON serves C09)',
+    'C20': '[primitive] same (MERGE-COMMON serves C20)',
 }, floor=1)
 def vc_without(ctx):
     """VClock::clone_without(self, base) returns a copy of self with reset_remove(base) applied, on every path."""
@@ -725,6 +749,9 @@ def vc_validate(ctx):
     'C07': 'a derived add context must carry the actor\'s next unused dot',
     'C11': 'GCounter::inc derives the next dot from the local total',
     'C12': 'List tags each op with the actor\'s next dot',
+    'C04': '[primitive] the dot of an Orswot add comes from here through derive_add_ctx (CTX-DERIVE): not fresh, the gate drops the add',
+    'C05': '[primitive] same for a Map update',
+    'C06': '[primitive] same for an MVReg write: a clock that does not exceed the read clock supersedes nothing',
 }, floor=2)
 def vc_inc(ctx):
     """VClock::inc(actor) == Dot{actor, counter: self.get(actor) + 1} (through VClock::dot and Dot::inc)."""
@@ -752,6 +779,13 @@ def vc_inc(ctx):
     'C02': 'if some dot of other does not reach self, a+b lacks information b+a has',
     'C03': 'op delivery of the dots behind other would have applied them',
     'C11': 'GCounter merge delegates here',
+    'C04': '[primitive] Orswot::merge joins the replica clocks and the both-present witnesses through it (ABSORB-MERGE, MERGE-COMMON)',
+    'C05': '[primitive] same for Map',
+    'C06': '[primitive] the add / rm clock of an MVReg read is the join of the value clocks through it (MV-READ)',
+    'C07': '[primitive] same: the context a read hands out must cover everything applied (MV-READ, ABSORB-MERGE)',
+    'C08': '[primitive] the clock growth by merge that triggers re-examination of pending removes (ABSORB-MERGE, DEF-REEXAM)',
+    'C09': '[primitive] a merged-in update that is not in the clock is adopted again from any stale state (ABSORB-MERGE)',
+    'C20': '[primitive] equal knowledge means equal clocks only if the join is the pointwise max (MERGE-COMMON, ABSORB-MERGE)',
 }, floor=1)
 def vc_merge(ctx):
     """VClock::merge applies every dot of other to self."""
@@ -844,6 +878,15 @@ def scan_kind(facts, t, analysed=None, bad=None):
     'C10': 'partial_cmp must be exactly the pointwise order (Equal / Greater / Less / None)',
     'C06': 'MVReg dominance filters call it',
     'C08': 'the defer decision calls it',
+    'C02': '[primitive] every keep / drop / adopt decision of merge compares clocks through it (MERGE-DROP, MRG-MVREG, DEF-DECIDE)',
+    'C03': '[primitive] same decisions on the op side (DEF-DECIDE, MV-EVICT, MV-IGNORE) and on the merge side',
+    'C04': '[primitive] Orswot: defer-or-apply of a remove, drop-or-keep of a one-sided member (DEF-DECIDE, MERGE-DROP)',
+    'C05': '[primitive] Map: same for keys',
+    'C07': '[primitive] MERGE-DROP serves C07 and decides through it',
+    'C09': '[primitive] whether a one-sided entry was seen and removed is this comparison (MERGE-DROP, DEF-DECIDE)',
+    'C17': '[primitive] VClock::concurrent is partial_cmp(..).is_none() (VC-CONC)',
+    'C18': '[primitive] Orswot / Map reset_remove drop the pending removes the clock covers by this comparison (RR-COVER, RR-PRUNE)',
+    'C20': '[primitive] a pending remove is stored only when this comparison says the replica has not seen it all (DEF-DECIDE/may)',
 }, floor=4)
 def vc_pcmp(ctx):
     """VClock::partial_cmp: Equal iff self == other; Greater iff every entry of other is <= self's; Less the mirror; else None."""
